@@ -466,12 +466,16 @@ func raceReproducesN(rp *Replay, attempts int) (bool, *Violation) {
 		return false, nil
 	}
 	ri := fromRaceReplay(rp)
+	base := ri.Rounds
 	for attempt := 0; attempt < attempts; attempt++ {
 		ro, reports, fatal := runRaceNode(ri, 20*time.Minute)
 		if raceMatches(rp.Expected, reports, ro, fatal) {
 			return true, rp.Expected
 		}
-		ri.Rounds *= 2
+		// more rounds help up to a point; beyond four times the recorded number only repetition does
+		if ri.Rounds < 4*base {
+			ri.Rounds *= 2
+		}
 	}
 	return false, nil
 }
@@ -489,11 +493,14 @@ func (c *checker) makeRaceReplay(fv *foundViolation) string {
 	}
 	confirm := func(s [][]raceReq) bool {
 		c.minimiseRuns++
-		ok, _ := raceReproducesN(toRaceReplay(s, rounds, &fv.v), 3)
+		ok, _ := raceReproducesN(toRaceReplay(s, rounds, &fv.v), 5)
 		return ok
 	}
 	if !confirm(full) {
-		infra("race report %s did not reproduce with the same request sets (logged; no verdict): %s", fv.v.Key, clip(fv.v.Detail, 400))
+		// the interleaving is the Go runtime's, not ours: a report that does not come back is no
+		// verdict; the other classes of this run (if any) are still tried
+		c.notReproduced(fv, fmt.Sprintf("race report %s did not reproduce with the same request sets in 5 attempts: %s", fv.v.Key, clip(fv.v.Detail, 400)))
+		return ""
 	}
 	// a reduction is only accepted when it reproduces twice in a row (the interleaving is not ours)
 	twice := func(s [][]raceReq) bool { return test(s) && test(s) }
